@@ -48,15 +48,15 @@ static inline uint8_t summary_entry_size(struct jls_core_fsr_s * self) {
 }
 
 int32_t jls_core_fsr_sample_buffer_alloc(struct jls_core_fsr_s * self) {
-    size_t sample_buffer_sz = sizeof(struct jls_payload_header_s) + (sample_size_bits(self) * self->parent->signal_def.samples_per_data) / 8;
+    size_t sample_buffer_sz = sizeof(struct jls_payload_header_s)
+            + (((size_t) sample_size_bits(self)) * self->parent->signal_def.samples_per_data) / 8;
     self->data = malloc(sample_buffer_sz);
     if (!self->data) {
-        jls_fsr_close(self);
-        return JLS_ERROR_NOT_ENOUGH_MEMORY;
+        return JLS_ERROR_NOT_ENOUGH_MEMORY;  // self stays valid: it is still referenced by its signal
     }
-    self->data_f64 = malloc(self->parent->signal_def.samples_per_data * sizeof(double));
+    self->data_f64 = malloc(((size_t) self->parent->signal_def.samples_per_data) * sizeof(double));
     if (!self->data_f64) {
-        jls_fsr_close(self);
+        jls_core_fsr_sample_buffer_free(self);
         return JLS_ERROR_NOT_ENOUGH_MEMORY;
     }
     JLS_LOGD1("%d sample_buffer alloc %p", self->parent->signal_def.signal_id, (void *) self->data);
@@ -534,6 +534,10 @@ int32_t jls_wr_fsr_data(struct jls_core_fsr_s * self, int64_t sample_id, const v
 
     if (0 == data_length) {
         return 0;
+    }
+    if (sample_id > (INT64_MAX - (int64_t) data_length - (int64_t) self->parent->signal_def.samples_per_data)) {
+        JLS_LOGW("fsr %d: sample_id too large", (int) self->parent->signal_def.signal_id);
+        return JLS_ERROR_PARAMETER_INVALID;  // sample ids (and block timestamps) would overflow
     }
 
     if (!self->data) {
